@@ -57,12 +57,12 @@ theorem insertCore_fresh (now : Int) (c0 : Coll) (fs1 : Fields) (c' : Coll) (id 
   obtain ⟨h1, h2, c1, he, hf, hu⟩ := insertCore_spec now c0 fs1 c' id hid h
   rw [expire_noTtl now c0 hn] at he
   cases he
-  have : c' = c0.setDoc id (.doc (patchFields fs1)) := by
+  have : c' = c0.storeDoc id (.doc (patchFields fs1)) := by
     apply ensureUniques_noTtl now _ _ _ _ hu
     simp [Coll.setDoc, hf, hn]
   subst this
   refine ⟨h1, hf, ?_⟩
-  rw [setDoc_fresh _ _ _ hf]
+  rw [storeDoc_fresh _ _ _ hf]
   simp [patchDT, patch]
 
 end MongoModel.Proofs.C05Lemmas
